@@ -1266,7 +1266,25 @@ struct Extractor
         if (encInst.empty())
             encInst = instName(efd);
         auto pos = base.rfind("::(lambda@");
-        return encInst + (pos == std::string::npos ? "::(lambda)" : base.substr(pos));
+        std::string r
+            = encInst + (pos == std::string::npos ? "::(lambda)" : base.substr(pos));
+        // generic lambda: distinguish the instantiations of operator()
+        if (auto* ta = cm->getTemplateSpecializationArgs())
+        {
+            r += "<";
+            PrintingPolicy pp(ctx.getLangOpts());
+            for (unsigned i = 0; i < ta->size(); ++i)
+            {
+                if (i)
+                    r += ",";
+                std::string a;
+                llvm::raw_string_ostream os(a);
+                ta->get(i).print(pp, os, true);
+                r += os.str();
+            }
+            r += ">";
+        }
+        return r;
     }
 
     std::string instName(FunctionDecl const* fd)
@@ -1796,6 +1814,22 @@ class Visitor : public RecursiveASTVisitor<Visitor>
     {
         if (auto* cm = le->getCallOperator())
             ex.handleFunction(cm);
+        // generic lambdas: the instantiations of the call operator template
+        // are not reached by the default traversal
+        if (auto* cls = le->getLambdaClass())
+        {
+            for (auto* d : cls->decls())
+            {
+                if (auto* ft = dyn_cast<FunctionTemplateDecl>(d))
+                {
+                    for (auto* spec : ft->specializations())
+                    {
+                        if (spec->doesThisDeclarationHaveABody())
+                            TraverseDecl(spec);
+                    }
+                }
+            }
+        }
         return true;
     }
     bool VisitCXXRecordDecl(CXXRecordDecl* rd)
